@@ -20,7 +20,7 @@ def expectedC02 : List (String × String) := [
   ("file:io/sources.py", "7c2b0cb2619a6b10"),
   ("file:io/text.py", "b72fac07748bae66"),
   ("file:transform/basics.py", "093d71f68c43a00a"),
-  ("file:transform/conversions.py", "c717da0d8eb0ba94"),
+  ("file:transform/conversions.py", "2209b8de15c75a9f"),
   ("file:transform/dedup.py", "bd5f47cbc6d0c73d"),
   ("file:transform/fills.py", "dd9addc453365c1c"),
   ("file:transform/hashjoins.py", "b948265980fadaea"),
